@@ -408,7 +408,12 @@ static void run_c01_stacked(void)
     memset(&S, 0, sizeof S);
     sim_set_diag_cb(diag);
     wl_rt *rt = &S.rt;
-    wl_rt_start(rt, 0);
+    /* units that wait for units of the runtime's own pools need stacked schedulers that give the
+     * stream back while they have nothing to run (the predefined ones never do); such a
+     * scheduler is a perpetual yielder, which the strict pool priority of the predefined main
+     * schedulers lets starve lower-priority pools: one pool per stream then */
+    int coop = plan_n(3) == 0;
+    wl_rt_start(rt, coop ? WL_RT_NO_TOPO2 : 0);
     {
         ABT_mutex_memory init = ABT_MUTEX_INITIALIZER;
         S.mtx_mem = init;
@@ -424,13 +429,16 @@ static void run_c01_stacked(void)
     int skind[2];
     for (int k = 0; k < nsched; k++) {
         ABT_OK(ABT_pool_create_basic(pk[plan_n(3)], ABT_POOL_ACCESS_MPMC, ABT_TRUE, &sp[k]));
-        skind[k] = (int)plan_n(5);
-        if (skind[k] == 4)
+        skind[k] = coop ? 4 : (int)plan_n(5);
+        if (coop)
+            ss[k] = wl_make_user_sched_coop(1, &sp[k]);
+        else if (skind[k] == 4)
             ss[k] = wl_make_user_sched(1, &sp[k]); /* a user-defined scheduler (ABT_sched_def) */
         else
             ABT_OK(ABT_sched_create_basic(kinds[skind[k]], 1, &sp[k], ABT_SCHED_CONFIG_NULL, &ss[k]));
     }
     sim_note("C01 stacked scheds=%d(%s,%s) units=%d: ", nsched, wl_sched_names[skind[0]], nsched > 1 ? wl_sched_names[skind[1]] : "-", n);
+    int nchild = 0;
     for (int i = 0; i < n; i++) {
         unit *u = &S.U[i];
         u->id = i;
@@ -442,6 +450,27 @@ static void run_c01_stacked(void)
         for (int k = 0; k < body; k++) {
             int st = (int)plan_n(3);
             add_step(&u->nsteps, u->steps, u->sarg, st == 0 ? ST_YIELD : st == 1 ? ST_MUTEX : ST_PAUSE, 0);
+        }
+        if (coop && !u->is_task && nchild < 4 && n + nchild < MAXU && plan_n(2) == 0) {
+            /* the unit, run by the stacked scheduler, creates a ULT in a pool of the runtime and
+             * joins it: the child is run by another scheduler (a main scheduler), and when it
+             * ends it may hand control straight back to the blocked joiner */
+            unit *c = &S.U[n + nchild];
+            c->id = n + nchild;
+            c->magic = 0xabcd0000ULL ^ (uint64_t)c->id;
+            c->named = 1;
+            c->pool = (int)plan_n((uint32_t)rt->npools);
+            c->how = CR_CREATE;
+            for (int k = (int)plan_n(3); k > 0; k--)
+                add_step(&c->nsteps, c->steps, c->sarg, ST_YIELD, 0);
+            add_step(&u->nsteps, u->steps, u->sarg, ST_CREATE, c->id);
+            if (plan_bool())
+                add_step(&u->nsteps, u->steps, u->sarg, ST_YIELD, 0);
+            add_step(&u->nsteps, u->steps, u->sarg, ST_JOIN, c->id);
+            if (plan_bool())
+                add_step(&u->nsteps, u->steps, u->sarg, ST_YIELD, 0);
+            nchild++;
+            sim_count("c01.stacked_units_joining_a_child_of_the_runtime", 1);
         }
         u->expected = 1;
         ABT_thread *ph = u->named ? &u->th : NULL;
@@ -469,8 +498,14 @@ static void run_c01_stacked(void)
             check_unit_done(&S.U[i], "when ABT_thread_free returned");
             sim_progress();
         }
+    /* units that create units finish before the streams are joined (see the assumptions) */
+    if (nchild)
+        for (int i = 0; i < n; i++)
+            while (!S.U[i].is_task && S.U[i].completions < S.U[i].expected)
+                ABT_OK(ABT_thread_yield());
     wl_rt_stop(rt);
-    for (int i = 0; i < n; i++)
+    S.n = n + nchild;
+    for (int i = 0; i < n + nchild; i++)
         check_unit_done(&S.U[i], "after ABT_finalize (unit of a stacked scheduler's pool)");
 }
 SIM_WORKLOAD("C01", "stacked", run_c01_stacked, 3)
